@@ -199,6 +199,31 @@ Proof. vm_compute. auto. Qed.
 Example C07_ex_bcd : m_BinaryToBCD 8 12 0 255 = 597.    (* 0x255 *)
 Proof. vm_compute. auto. Qed.
 
+Example C07_ex_signed_add : m_SignedAdd 3 2 4 (Some 1) 4 3 = 12 /\ spec_sadd 3 2 4 4 3 1 = 12.          (* -4 + -1 + 1 = -4 *)
+Proof. vm_compute. auto. Qed.
+Example C07_ex_signed_add_co : m_SignedAdd_co 4 4 4 1 None 15 15 = (14, 1).                                (* -1 + -1 = -2, carry 1 *)
+Proof. vm_compute. auto. Qed.
+Example C07_ex_signed_sub : m_SignedSub 4 4 5 8 7 = 17 /\ spec_ssub 4 4 5 8 7 = 17.                        (* -8 - 7 = -15 on 5 bits *)
+Proof. vm_compute. auto. Qed.
+Example C07_ex_sign_extend : SignExtend_propagate 3 8 5 = 253 /\ SignExtend_propagate 3 2 5 = 1.
+Proof. vm_compute. auto. Qed.
+Example C07_ex_signed_mul : SignedMul_propagate 4 4 8 8 8 = 64 /\ SignedMul_propagate 4 4 8 8 1 = 248.
+Proof. vm_compute. auto. Qed.
+Example C07_ex_div_mod : Div_propagate 4 7 13 5 = 2 /\ Mod_propagate 4 7 13 5 = 3.
+Proof. vm_compute. auto. Qed.
+Example C07_ex_rot_const : RotateLeftConstant_propagate 4 4 4 9 = 9 /\ RotateRightConstant_propagate 4 3 1 9 = 4.
+Proof. vm_compute. auto. Qed.
+Example C07_ex_shift_left : m_ShiftLeft 4 3 6 15 5 = 32 /\ m_ShiftLeft 4 3 6 15 7 = 0.                     (* amount >= result width *)
+Proof. vm_compute. auto. Qed.
+Example C07_ex_shift_right : m_ShiftRight ALogical 4 3 4 15 4 = 0 /\ m_ShiftRight ALogical 4 3 6 15 1 = 7.
+Proof. vm_compute. auto. Qed.
+Example C07_ex_sar_wire : m_ShiftRight (AWire 1) 4 2 5 8 3 = 31 /\ m_ShiftRight (AWire 0) 4 2 5 8 3 = 1.
+Proof. vm_compute. auto. Qed.
+Example C07_ex_rotr : m_RotateRight 5 3 6 19 7 = spec_rotr 5 6 19 7 /\ spec_rotr 5 6 19 7 = 28.
+Proof. vm_compute. auto. Qed.
+Example C07_ex_c2 : IntegerHelper_c2_to_signed 200 8 = -56 /\ IntegerHelper_signed_to_c2 (-56) 8 = 200 /\ IntegerHelper_c2_to_signed (-1) 4 = -1.
+Proof. vm_compute. auto. Qed.
+
 Print Assumptions C07_add_carry_in.
 Print Assumptions C07_add.
 Print Assumptions C07_add_carry_out.
